@@ -248,28 +248,50 @@ func registerSig(ex *Explorer) {
 		s := &snap{kind: 'S', names: []string{"key", "msg"}, elems: []*snap{{kind: 'T', str: key}, {kind: 'V', raw: append([]value{}, msg...)}}}
 		return tuple{handleBytes(&handle{kind: "sig", snap: s}), iface{}}
 	})
-	ex.register(cp+"Sig2Addr", func(fr *frame, args []value) value {
+	// crypto.Sig2Addr itself is the repository's code and is executed; only the
+	// curve arithmetic below it is replaced: recovery over exactly the signed
+	// message (compared through its hash) yields the signer's key, anything else
+	// an unrelated key.  A recovered *ecdsa.PublicKey is a boxed *keyInfo.
+	ex.register("github.com/ethereum/go-ethereum/crypto.SigToPub", func(fr *frame, args []value) value {
 		c := fr.i.ctx
-		msg, sig := args[0].([]value), args[1].([]value)
+		hash, sig := args[0].([]value), args[1].([]value)
 		h, ok := handleOf(sig)
 		if !ok || h.kind != "sig" {
-			return tuple{[]value(nil), []value(nil), fr.i.newXError("invalid signature")}
+			return tuple{(*value)(nil), fr.i.newError("invalid signature")}
 		}
 		ki := keyTable(c)[h.snap.elems[0].str]
 		if ki == nil {
 			unsupp("signature by an unregistered key")
 		}
 		signed := h.snap.elems[1].raw.([]value)
-		if c.branch(bytesEqTerm(signed, msg)) {
-			return tuple{bytesToValues(ki.addr), bytesToValues(ki.pub), iface{}}
+		match := tFalse
+		if hh, ok := handleOf(hash); ok && hh.kind == "hash" {
+			want := &snap{kind: 'L', elems: []*snap{fr.i.snapOf(fr, signed, types.NewSlice(types.Typ[types.Uint8]), modeProto, false)}}
+			match = snapEq(hh.snap, want)
+		}
+		if c.branch(match) {
+			return tuple{boxed(ki), iface{}}
 		}
 		// recovery over a different message: some unrelated key
 		other := make([]byte, 20)
 		other[0], other[19] = 0xBA, 0xD0
 		opub := make([]byte, 33)
 		opub[0], opub[1] = 0x02, 0xBD
-		return tuple{bytesToValues(other), bytesToValues(opub), iface{}}
+		return tuple{boxed(&keyInfo{addr: other, pub: opub}), iface{}}
 	})
+	pubKeyInfo := func(v value) *keyInfo {
+		pv, ok := v.(*value)
+		if !ok || pv == nil {
+			nilDeref()
+		}
+		ki, ok := (*pv).(*keyInfo)
+		if !ok {
+			unsupp("ecdsa.PublicKey that was not recovered from a signature (%T)", *pv)
+		}
+		return ki
+	}
+	ex.register(cp+"Pub2Addr", func(fr *frame, args []value) value { return bytesToValues(pubKeyInfo(args[0]).addr) })
+	ex.register(cp+"CompressPubkey", func(fr *frame, args []value) value { return bytesToValues(pubKeyInfo(args[0]).pub) })
 	ex.register(cp+"PubBytes2Addr", func(fr *frame, args []value) value {
 		pub, ok := concreteBytes(args[0].([]value))
 		if !ok {
